@@ -72,6 +72,26 @@ class SwapIf(ast.NodeTransformer):
         return node
 
 
+class FlipCmp(ast.NodeTransformer):
+    """a == b -> b == a, a < b -> b > a, `x and y` -> `y and x`"""
+    FL = {ast.Eq: ast.Eq, ast.NotEq: ast.NotEq, ast.Lt: ast.Gt,
+          ast.Gt: ast.Lt, ast.LtE: ast.GtE, ast.GtE: ast.LtE}
+
+    def visit_Compare(self, node):
+        self.generic_visit(node)
+        if len(node.ops) == 1 and type(node.ops[0]) in self.FL:
+            return ast.copy_location(ast.Compare(
+                left=node.comparators[0],
+                ops=[self.FL[type(node.ops[0])]()],
+                comparators=[node.left]), node)
+        return node
+
+    def visit_BoolOp(self, node):
+        self.generic_visit(node)
+        node.values = list(reversed(node.values))
+        return node
+
+
 MODE = 'rename'
 
 
@@ -87,6 +107,18 @@ def renamed_source(m, fnodes):
             if not names:
                 continue
             new = Ren(names).visit(copy.deepcopy(fn))
+        elif MODE == 'all':
+            new = copy.deepcopy(fn)
+            names = locals_of(fn)
+            if names:
+                new = Ren(names).visit(new)
+            new = FlipCmp().visit(new)
+            new = SwapIf().visit(new)
+            i = 1 if (new.body and isinstance(new.body[0], ast.Expr)
+                      and isinstance(new.body[0].value, ast.Constant)) else 0
+            new.body.insert(i, ast.parse('_noop = None').body[0])
+        elif MODE == 'flip':
+            new = FlipCmp().visit(copy.deepcopy(fn))
         elif MODE == 'swap':
             new = SwapIf().visit(copy.deepcopy(fn))
         else:
@@ -157,6 +189,12 @@ def main(props):
 if __name__ == '__main__':
     if sys.argv[1:2] == ['--swap-if']:
         MODE = 'swap'
+        del sys.argv[1]
+    elif sys.argv[1:2] == ['--all']:
+        MODE = 'all'
+        del sys.argv[1]
+    elif sys.argv[1:2] == ['--flip']:
+        MODE = 'flip'
         del sys.argv[1]
     elif sys.argv[1:2] == ['--noop']:
         MODE = 'noop'
